@@ -20,7 +20,7 @@ RULE = (
     "inputs: (1) every sequence of <=3 (quick) / <=4 (thorough) lexemes from the alphabet {lda nop .db .macro .if .for .map .struct .scope .text .include_ips identifier label: numbers ' 's' ;c /* */ { } {{ }} ( ) [ ] # , . .b = := *= @= "
     "+ - * << & | ~ newline space \\\\ \" NUL else}, joined with and without separating spaces; (2) every truncation, single deletion and single duplication, at token and (strided) character granularity, of generated valid programs and of "
     "tests/samples/*.s; (3) Hypothesis token soup of <=60 lexemes and arbitrary unicode text; (4) thorough: atheris on parse and full assembly.  Oracle: MZParser.parse_as_ast and Program.assemble_string_with_emitter finish (result or any "
-    "exception, including RecursionError) within 50,000 + 3,000*len(text) traced line events in a816/ and script/ frames (measured worst case ~155 events per character), expansion only when the literal loop counts bound it by 5,000 statements.  "
+    "exception, including RecursionError) within 50,000 + 3,000*len(text) traced line events in a816/ and script/ frames (measured worst case ~155 events per character), expansion only when the literal loop counts bound it by 5,000 statements (+2,000 events per expanded statement, +4 M when macros are defined: recursion without a terminating condition is ended by the recursion limit).  "
     "Non-trivial = the input ends inside a construct (open comment / string / bracket / brace / macro header) or produces an error; distinct by input text."
 )
 LEVEL_TEXT = "Exhaustive short-sequence enumeration + mutation enumeration + random and coverage-guided soup under a deterministic watchdog; a budget overrun is the only violation signal, wall-clock expiry is 'inconclusive'."
@@ -73,7 +73,9 @@ def check_text(out: Outcome, text: str, sub, assemble=True):
         if bound > 5000:
             out.labels.append("assembly-skipped:explicit-loop-counts")
             return nt
-        w2 = watchdog.Watchdog(budget(text) + 2000 * bound)
+        # macro recursion without a terminating condition is ended by the interpreter's recursion limit (a constant):
+        # measured worst case ~0.8 M events (scope-chain look-ups grow with the depth), allowance 4 M
+        w2 = watchdog.Watchdog(budget(text) + 2000 * bound + (4_000_000 if ".macro" in text else 0))
 
         def run():
             p = Program()
@@ -106,6 +108,14 @@ def structured_inputs(d: int):
     ins.append(("unary-chain", org + "lda.w #" + "~" * d + "1\nlda.w #" + "-~" * (d // 2) + "1\n"))
     ins.append(("many-labels-forward-refs", org + "".join(f".dl lb_{(i * 7) % d}\nlb_{i}:\n" for i in range(d))))
     ins.append(("recursive-macro", org + ".macro m_r(p) {\n.if p {\n.db p\nm_r(p - 1)\n}\n}\n" + f"m_r({d})\n"))
+    # unbounded macro recursion: only the interpreter's recursion limit ends it, as a reported failure
+    for cond in (None, "k_out", "1", "k_out - 4", "lb_out"):
+        for calls in (1, 2, 3):
+            body = "m_u()\n" * calls
+            if cond is not None:
+                body = f".if {cond} {{\n{body}}}\n"
+            ins.append((f"unbounded-recursion:{cond}:{calls}", org + ".macro m_u() {\n.db 1\n" + body + "}\nm_u()\n"))
+    ins.append(("mutual-recursion", org + ".macro m_p() {\n.if k_out {\nm_q()\nm_q()\n}\n}\n.macro m_q() {\nm_p()\n}\n.macro m_p() {\n.if k_out {\nm_q()\nm_q()\n}\n}\nm_p()\n"))
     ins.append(("unbalanced-open", org + "{\n" * d + ".db 1\n"))
     ins.append(("unbalanced-close", org + ".db 1\n" + "}\n" * d))
     ins.append(("comment-run", org + "/* a */\n" * d + "; c\n" * d + "nop ; x\n" * d))
